@@ -225,8 +225,8 @@ def shared_weighted_uncrossed_in_subblock(case, v=None):
 
 
 def _shared_wu(case, v=None):
-    """A Merge/Nest/Repeat tree in which some sub-block has a weighted basic factor in its design but not in its
-    crossing (so that sub-block desugars the factor on its own; the combined design then holds the original and
+    """A Merge/Nest/Repeat tree in which some sub-block has a weighted basic factor in its design but not in every
+    one of its crossings (so that sub-block desugars the factor on its own; the combined design then holds the original and
     the desugared factors under one name)."""
     sp = _spec(case)
     F = sp["factors"]
@@ -236,10 +236,11 @@ def _shared_wu(case, v=None):
     for b in S.walk_blocks(tree):
         if b["op"] != "cross":
             continue
-        crossed = set(n for c in b["crossings"] for n in c)
+        cs = [c for c in b["crossings"] if c]
         for n in b["design"]:
             f = F[n]
-            if f["kind"] == "basic" and any(w > 1 for _, w in f["levels"]) and n not in crossed:
+            # the sub-block desugars a weighted factor that is not in every one of its crossings
+            if f["kind"] == "basic" and any(w > 1 for _, w in f["levels"]) and not (cs and all(n in c for c in cs)):
                 return True
     return False
 
